@@ -250,7 +250,7 @@ func desiredIDs(m map[childID]Object) []string {
 func C03Scenario() *Scenario {
 	return &Scenario{Prop: "C03", Init: func(w *World) {
 		t := w.T
-		s := NewCompositeSetup(w, GenOpts{PlainOwner: true, AllowCluster: true, AllowSSA: false, MaxWorkers: 2, MaxParents: 2, LookAlikes: true, AvoidKnown: true, ExpressionSel: true,
+		s := NewCompositeSetup(w, GenOpts{PlainOwner: true, SameNames: true, AllowCluster: true, AllowSSA: false, MaxWorkers: 2, MaxParents: 2, LookAlikes: true, AvoidKnown: true, ExpressionSel: true,
 			Kinds: []*Resource{ResWidget, ResConfigMap, ResGadget}})
 		// objects of an undeclared kind, owned by the parent
 		for _, p := range s.Parents {
